@@ -23,6 +23,14 @@ TWINS = [
     ("skip_not_counted_collide", "#[derive(Encode, Decode)] enum T { #[codec(skip)] A, #[codec(index = 1)] B, C }", False),  # C takes position 1 among non-skipped
     ("skip_not_counted_ok", "#[derive(Encode, Decode)] enum T { #[codec(skip)] A, #[codec(index = 0)] B, C }", True),
     ("skip_dup", "#[derive(Encode, Decode)] enum T { #[codec(skip)] A, B, #[codec(index = 0)] C }", False),
+    ("single_variant_over_255", "#[derive(Encode, Decode)] enum T { #[codec(index = 256)] A(u32) }", False),
+    ("single_variant_at_255_ok", "#[derive(Encode, Decode)] enum T { #[codec(index = 255)] A(u32) }", True),
+    ("single_live_variant_over_255", "#[derive(Encode, Decode)] enum T { #[codec(index = 300)] A, #[codec(skip)] B }", False),
+    ("skip_and_compact_one_plain_field", "#[derive(Encode, Decode)] struct S { #[codec(skip)] #[codec(compact)] a: u32, b: u64 }", False),
+    ("skip_and_encoded_as_tuple", "#[derive(Encode, Decode)] struct S(#[codec(skip)] #[codec(encoded_as = \"parity_scale_codec::Compact<u32>\")] u32, u8);", False),
+    ("skip_one_plain_field_ok", "#[derive(Encode, Decode)] struct S { #[codec(skip)] a: u32, b: u64 }", True),
+    ("skip_and_compact_two_plain_fields", "#[derive(Encode, Decode)] struct S { #[codec(skip)] #[codec(compact)] a: u32, b: u64, c: u8 }", False),
+    ("skip_and_compact_in_variant", "#[derive(Encode, Decode)] enum T { A { #[codec(skip)] #[codec(compact)] a: u32, b: u8 } }", False),
     ("compact_and_encoded_as", "#[derive(Encode, Decode)] struct S { #[codec(compact, encoded_as = \"u8\")] a: u32 }", False),
     ("compact_ok", "#[derive(Encode, Decode)] struct S { #[codec(compact)] a: u32 }", True),
     ("union", "#[derive(Encode, Decode)] union U { a: u8, b: u8 }", False),
